@@ -87,7 +87,8 @@ type TermCtx struct {
 	tab    map[string]*Term
 	nextID int
 	// UF declarations: name -> signature
-	ufs map[string]string
+	ufs  map[string]string
+	vars []*Term // every variable created in this context (models must cover all of them)
 }
 
 func NewTermCtx() *TermCtx {
@@ -130,6 +131,7 @@ func (c *TermCtx) Var(name string, w int) *Term {
 	}
 	t := &Term{Op: OpVar, W: w, Name: name}
 	c.tab[k] = t
+	c.vars = append(c.vars, t)
 	return t
 }
 
@@ -816,7 +818,11 @@ func Eval(t *Term, model map[string]uint64, memo map[*Term]uint64) (uint64, bool
 	case OpConst:
 		r = t.V
 	case OpVar:
-		r = model[t.Name] & maskB(t.W)
+		v, ok := model[t.Name]
+		if !ok {
+			return 0, false // the model predates this variable
+		}
+		r = v & maskB(t.W)
 	case OpUF:
 		return 0, false
 	default:
